@@ -1,42 +1,60 @@
-(* C16 -- schema definitions survive conversion to text and back: the stages AFTER the regular
-   expression (partial; the regex stage itself is covered by the correspondence check only). *)
+(* C16 -- schema definitions survive conversion to text and back.
+   For each of the three description types: whenever the fields are valid per RFC 4512, str() succeeds and
+   from_string() of that text gives back the description, field for field.  The text goes through the
+   pattern generated from the source (Gen/Generated.v) run by the backtracking matcher with captures, then
+   through the model of the field readers.  The conditions are executable (Schema/WfDec.v) and the check
+   evaluates them on every generated description. *)
 From Coq Require Import ZArith NArith List Bool.
-From SV Require Import Base.Py Rx.Syntax Gen.Generated Schema.Model Schema.Proofs.
+From SV Require Import Base.Py Rx.Syntax Gen.Generated Schema.Model Schema.Proofs Schema.Match Schema.Chain
+  Schema.ObjectClass Schema.AttributeType Schema.DitContentRule Schema.WfDec.
 Import ListNotations.
+
+(* object classes: numeric OID, descriptor names, optional non-empty description, OID lists, kind, extensions
+   with distinct keys and non-empty values *)
+Theorem C16_object_class_round_trip :
+  forall o, wf_oc o -> exists s, oc_print o = Ok s /\ oc_from_string s = Ok o.
+Proof. exact oc_round_trip. Qed.
+
+(* attribute types: additionally single OIDs for SUP / EQUALITY / ORDERING / SUBSTR, a numeric-OID syntax with any
+   non-negative length, the three flags and the four usages *)
+Theorem C16_attribute_type_round_trip :
+  forall a, wf_at a -> exists s, at_print a = Ok s /\ at_from_string s = Ok a.
+Proof. exact at_round_trip. Qed.
+
+(* DIT content rules *)
+Theorem C16_dit_content_rule_round_trip :
+  forall o, wf_dcr o -> exists s, dcr_print o = Ok s /\ dcr_from_string s = Ok o.
+Proof. exact dcr_round_trip. Qed.
+
+(* the same, from the executable conditions *)
+Theorem C16_round_trip_executable_conditions :
+  (forall o, wf_oc_b o = true -> exists s, oc_print o = Ok s /\ oc_from_string s = Ok o) /\
+  (forall a, wf_at_b a = true -> exists s, at_print a = Ok s /\ at_from_string s = Ok a) /\
+  (forall o, wf_dcr_b o = true -> exists s, dcr_print o = Ok s /\ dcr_from_string s = Ok o).
+Proof. exact (conj oc_round_trip_b (conj at_round_trip_b dcr_round_trip_b)). Qed.
 
 (* Every description / extension text -- quotes, backslashes, text that looks like an escape, any code
    point -- is recovered from its quoted form. *)
-Theorem C16_partial_qdstring_round_trip :
+Theorem C16_qdstring_round_trip :
   forall v, exists q, encode_qdstring v = Ok q /\ parse_qdstring q = Ok v.
 Proof. exact qdstring_round_trip. Qed.
 
-(* The whole extensions block: any number of X- items with distinct space-free keys, single values and
-   parenthesised lists (the empty list included), values arbitrary text. *)
-Theorem C16_partial_extensions_round_trip :
-  forall e, Forall (fun x => key_ok (fst x)) e -> NoDup (keys_of e) ->
-  exists t, print_ext e = Ok t /\ parse_extensions (Some t) = Ok e.
-Proof. exact extensions_round_trip. Qed.
+(* non-vacuity: descriptions with every part present satisfy the conditions *)
+Example C16_example_oc :
+  wf_oc (mkOC [50; 46; 53; 46; 54; 46; 49; 48] [[97; 98]; [99; 45; 100]] (Some [39; 92; 120]) true [[116; 111; 112]; [49; 46; 50]]
+              2 [[99; 110]] [] [([102; 111; 111], [[98]; [99]]); ([98; 97; 114], [])])%N.
+Proof. exact wf_oc_example. Qed.
+Example C16_example_at :
+  wf_at (mkAT [50; 46; 53; 46; 52; 46; 51] [[99; 110]] (Some [120]) false (Some [110; 97; 109; 101]) None (Some [49; 46; 50]) None
+              (Some [49; 46; 51; 46; 54]) (Some 32768%Z) true false true 1 [])%N.
+Proof. exact wf_at_example. Qed.
+Example C16_example_dcr :
+  wf_dcr (mkDCR [50; 46; 53; 46; 54; 46; 49; 48] [[97; 98]] None false [[116; 111; 112]; [49; 46; 50]] [] [[99; 110]] [[120]]
+                [([102; 111; 111], [[98]])])%N.
+Proof. exact wf_dcr_example. Qed.
 
-(* OID lists (SUP / MUST / MAY / AUX / NOT), bare or parenthesised with $ separators. *)
-Theorem C16_partial_oid_lists_round_trip :
-  forall l, l <> [] -> Forall plain l -> parse_oids (Some (encode_oids l)) = l.
-Proof. exact oids_round_trip. Qed.
-
-(* NAME lists, one quoted name or a parenthesised list. *)
-Theorem C16_partial_names_round_trip :
-  forall names, names <> [] -> Forall plain names ->
-  parse_names (Some (match names with
-                     | [n] => quote n
-                     | _ => [LP; SPC; SQ] ++ ujoin [SQ; SPC; SQ] names ++ [SQ; SPC; RP]
-                     end)) = names.
-Proof. exact names_round_trip. Qed.
-
-(* non-vacuity: a description made of a quote, a backslash and the text "\27" *)
-Example C16_example :
-  parse_qdstring [39; 92; 50; 55; 92; 53; 99; 92; 53; 99; 50; 55; 39]%N = Ok [39; 92; 92; 50; 55]%N.
-Proof. vm_compute. reflexivity. Qed.
-
-Print Assumptions C16_partial_qdstring_round_trip.
-Print Assumptions C16_partial_extensions_round_trip.
-Print Assumptions C16_partial_oid_lists_round_trip.
-Print Assumptions C16_partial_names_round_trip.
+Print Assumptions C16_object_class_round_trip.
+Print Assumptions C16_attribute_type_round_trip.
+Print Assumptions C16_dit_content_rule_round_trip.
+Print Assumptions C16_round_trip_executable_conditions.
+Print Assumptions C16_qdstring_round_trip.
